@@ -304,89 +304,67 @@ def vaultPass (batch : Nat) (key : Nat) (off : Nat) (f : Vault → World → Opt
     let w' := sl.foldl (fun acc v => applyIfNoError (f v) acc) w
     some { w' with offsets := w'.offsets.set key b.2.toNat }
 
-/-- result of an UNWRAPPED step: on error the writes made so far stay (`leak`) when the caller is a block hook on the
-live context; inside a transaction they are discarded with the transaction -/
-inductive StepR
-  | ok (w : World)
-  | err (leak : World)
-deriving Inhabited
-
 /-- generation 2 `LiquidateIndividualBorrow` + `UpdateLockedBorrows` for one borrow (liquidate.go:265-404).
+`none` = error; both callers discard the writes of a failing step (the sweep wraps every borrow in
+`ApplyFuncIfNoError` since fix c15713f, a message runs in a transaction), so only complete steps are visible.
 Only what the property speaks about is kept: flag, collateral custody, locked vault, auction.
 English auctions are never enabled in the harness, so `AuctionType = false` ends in the error of liquidate.go:212. -/
-def liquidateBorrowV2 (e : Env) (id : Nat) (w : World) : StepR :=
+def liquidateBorrowV2 (e : Env) (id : Nat) (w : World) : Option World :=
   match w.borrows.find? (·.id == id) with
-  | none => .err w
+  | none => none
   | some b =>
-    if b.liquidated then .ok w else
-    if (e.app b.app).kill then .err w else
+    if b.liquidated then some w else
+    if (e.app b.app).kill then none else
     match borrowRatio e b with
-    | none => .err w
+    | none => none
     | some r =>
       if r > borrowThreshold b then
         let a := e.app b.app
-        if !a.wl2 then .err w else
-        -- liquidate.go:366-367: the flag is written first
-        let w1 := { w with borrows := w.borrows.map (fun x => if x.id == id then { x with liquidated := true } else x) }
-        if w1.poolBal.get b.assetIn < b.amountIn then .err w1 else
-        -- :376-384 collateral to the auction account, cTokens burnt
-        let w2 := { w1 with poolBal := w1.poolBal.add b.assetIn (- b.amountIn), auctionBal := w1.auctionBal.add b.assetIn b.amountIn }
-        -- :386 CreateLockedVault with AuctionType = IsDutchActivated
-        if !a.dutch2 then .err w2 else
-        let w3 := { w2 with lockedId := w2.lockedId + 1
-                            newLocked := w2.newLocked ++ [{ id := w2.lockedId + 1, orig := b.id, app := b.app, amountIn := b.amountIn, isBorrow := true }] }
-        if !(e.priceActive b.assetIn && e.priceActive b.assetOut) then .err w3 else
-        .ok { w3 with auctionId := w3.auctionId + 1
-                      newAuctions := w3.newAuctions ++ [{ id := w3.auctionId + 1, locked := w3.lockedId, asset := b.assetIn, amount := b.amountIn }] }
-      else .ok w
-
-/-- the unwrapped loop of liquidate.go:249-254: the first error aborts the pass (the offset is then not stored) and
-everything written before — including the partial writes of the failing step — stays -/
-def borrowLoopV2 (e : Env) : List Nat → World → StepR
-  | [], w => .ok w
-  | id :: rest, w =>
-    match liquidateBorrowV2 e id w with
-    | .err leak => .err leak
-    | .ok w' => borrowLoopV2 e rest w'
+        if !a.wl2 then none else
+        if w.poolBal.get b.assetIn < b.amountIn then none else
+        -- CreateLockedVault with AuctionType = IsDutchActivated; the Dutch activator needs both oracle records active
+        if !a.dutch2 then none else
+        if !(e.priceActive b.assetIn && e.priceActive b.assetOut) then none else
+        some { w with
+          borrows := w.borrows.map (fun x => if x.id == id then { x with liquidated := true } else x)
+          poolBal := w.poolBal.add b.assetIn (- b.amountIn)
+          auctionBal := w.auctionBal.add b.assetIn b.amountIn
+          lockedId := w.lockedId + 1
+          auctionId := w.auctionId + 1
+          newLocked := w.newLocked ++ [{ id := w.lockedId + 1, orig := b.id, app := b.app, amountIn := b.amountIn, isBorrow := true }]
+          newAuctions := w.newAuctions ++ [{ id := w.auctionId + 1, locked := w.lockedId + 1, asset := b.assetIn, amount := b.amountIn }] }
+      else some w
 
 /-- Result of a block hook -/
 inductive Outcome
   | ok (w : World)
-  | aborted (w : World)   -- the hook returned an error after partial work (generation 2 borrow loop)
   | panic
 deriving Inhabited
 
-/-- generation 2 borrow pass (liquidate.go:230-259). The holder is READ under id 1 and, not having been found, is
-written back with `AppId` 0 — i.e. under the key of the VAULT sweep (offset.go:10-17 uses `holder.AppId`).
-`fix = true` models the one-line repair `holder.AppId = offsetCounterId`. -/
-def borrowPassV2 (fix : Bool) (e : Env) (batch : Nat) (w : World) : Outcome :=
-  let found := w.offsets.get? 1
-  let off := found.getD 0
-  let key := if found.isSome || fix then 1 else 0
+/-- generation 2 borrow pass (liquidate.go:230-260 after fixes 16be2e4, c15713f): its own offset under id 1, every
+borrow of the range in its own `ApplyFuncIfNoError` — a failing borrow leaves no writes and the rest is still processed -/
+def borrowPassV2 (e : Env) (batch : Nat) (w : World) : Outcome :=
+  let off := (w.offsets.get? 1).getD 0
   let ids := w.borrows.map (·.id)
   let b := sweepBoundsI (ids.length : Int) (toGoInt off) (toGoInt batch)
   match goSlice ids b.1 b.2 with
   | none => .panic
   | some sl =>
-    match borrowLoopV2 e sl w with
-    | .err leak => .aborted leak
-    | .ok w' => .ok { w' with offsets := w'.offsets.set key b.2.toNat }
+    let w' := sl.foldl (fun acc id => applyIfNoError (liquidateBorrowV2 e id) acc) w
+    .ok { w' with offsets := w'.offsets.set 1 b.2.toNat }
 
 /-- generation 2 `Liquidate` = BeginBlocker: vault pass under key 0, then borrow pass (surplus/debt auctions are
 outside this property; the harness configures none). -/
-def blockV2 (fix : Bool) (e : Env) (batch : Nat) (w : World) : Outcome :=
+def blockV2 (e : Env) (batch : Nat) (w : World) : Outcome :=
   let off := (w.offsets.get? 0).getD 0
   match vaultPass batch 0 off (fun v => liquidateVaultV2 e v.id) w with
   | none => .panic
-  | some w1 => borrowPassV2 fix e batch w1
+  | some w1 => borrowPassV2 e batch w1
 
 /-- generation 2 `MsgLiquidateInternalKeeper`: liqType 0 vault, 1 borrow, anything else a successful no-op -/
 def msgLiquidateV2 (e : Env) (liqType id : Nat) (w : World) : Option World :=
   if liqType = 0 then liquidateVaultV2 e id w
-  else if liqType = 1 then
-    match liquidateBorrowV2 e id w with
-    | .ok w' => some w'
-    | .err _ => none
+  else if liqType = 1 then liquidateBorrowV2 e id w
   else some w
 
 /-- generation 1 vault sweep: for every whitelisted app in store order (ascending id), its own offset -/
